@@ -117,6 +117,7 @@ func histFiles(ext string) map[string]string {
 		"repeats" + ext:         "{{ pattern.repeat(n) }}|{{ amount.decimal(sep, places) }}",
 		"args" + ext:            "{{ word.at(-back) }}|{{ shown.then(!muted, \"n/a\") }}|{{ -n }}|{{ word.at(back - 1) }}|{{ [1, 2, 3].slice(-(back), 3) }}|@each(w in [word])@if(!muted){{ w.repeat(-(-back)) }}@end@end",
 		"item" + ext:            "item {{ it.name }}/{{ it.qty }} {{ it }}",
+		"ruler" + ext:           "@use(\"~main\")@insert(\"title\", \"=\".repeat(width))@insert(\"body\", [\"w\", width.str()].join(\":\"))",
 		"badge" + ext:           "{{ \"admin,editor\".contains(role) ? \"staff\" : \"guest\" }}|{{ [role].contains(\"admin\") ? 1 : 2 }}|@if(\"admin\".contains(role))a@else b@end|{{ true.then(role, 0) }}|{{ role.len() > 5 ? \"long\" : \"short\" }}|{{ \"x\".repeat(role.len()) }}|{{ [1, 2, 3].slice(role.len() - 5).len() }}|@each(k in [1, 2]){{ \"ab\".contains(role.at(k)) ? \"y\" : \"n\" }}@end",
 		"numbers" + ext:         "{{ x.str() }}|{{ x }}|{{ (x * 1.0).str() }}|{{ (0.0 * x).str() }}|{{ [[n, n + 1], [0, 0]] }}|{{ [1, [n], \"s\"] }}|@each(k in [[n], [2]]){{ k }}@end|{{ {a: [n], b: {c: n}} }}|{{ [[]].len() + n }}|{{ [\"a\", [\"b\" + n.str()]] }}",
 	}
@@ -207,6 +208,10 @@ func histOps() []histOp {
 		{"String(args, back=3 muted=true)", str("args", func() map[string]any {
 			return map[string]any{"word": "stair", "back": 3, "shown": true, "muted": true, "n": -4}
 		})},
+		// insert arguments that are calls on literal receivers with arguments from the data
+		{"String(ruler, width=3)", str("ruler", func() map[string]any { return map[string]any{"width": 3} })},
+		{"String(ruler, width=5)", str("ruler", func() map[string]any { return map[string]any{"width": 5} })},
+		{"String(ruler, width=-1)", str("ruler", func() map[string]any { return map[string]any{"width": -1} })},
 		// literal receivers whose arguments differ from render to render
 		{"String(badge, role=admin)", str("badge", func() map[string]any { return map[string]any{"role": "admin"} })},
 		{"String(badge, role=visitor)", str("badge", func() map[string]any { return map[string]any{"role": "visitor"} })},
@@ -301,10 +306,10 @@ func (h *histEnv) load(c *core.Ctx) bool {
 	textwire.VerifResetConfig()
 	cfg := &config.Config{TemplateDir: h.dir, TemplateExt: h.ext, DebugMode: h.debug}
 	if h.errPage {
-		cfg.ErrorPagePath = "errors/500"
+		cfg.ErrorPagePath = h.errPathSpelling("errors/500")
 	}
 	if h.brokenErrPage {
-		cfg.ErrorPagePath = "errors/broken"
+		cfg.ErrorPagePath = h.errPathSpelling("errors/broken")
 	}
 	var err error
 	if c.Guard(func() { h.tpl, err = textwire.NewTemplate(cfg) }) {
@@ -321,6 +326,17 @@ func (h *histEnv) load(c *core.Ctx) bool {
 
 // histEnvFor builds the environment of configuration cfgNo (3 directory/extension
 // settings x debug x error page none/valid/broken)
+// errPathSpelling: the error page path as written in the configuration (with slashes around it under two of the settings)
+func (h *histEnv) errPathSpelling(p string) string {
+	switch h.ext {
+	case ".tw.html":
+		return "/" + p + "/"
+	case ".html":
+		return p + "/"
+	}
+	return p
+}
+
 func histEnvFor(cfgNo int) (*histEnv, string) {
 	hc := histConfigs[cfgNo%len(histConfigs)]
 	mode := cfgNo / len(histConfigs)
@@ -341,10 +357,10 @@ func init() {
 		textwire.VerifResetConfig()
 		cfg := &config.Config{TemplateDir: h.dir, TemplateExt: h.ext, DebugMode: h.debug}
 		if h.errPage {
-			cfg.ErrorPagePath = "errors/500"
+			cfg.ErrorPagePath = h.errPathSpelling("errors/500")
 		}
 		if h.brokenErrPage {
-			cfg.ErrorPagePath = "errors/broken"
+			cfg.ErrorPagePath = h.errPathSpelling("errors/broken")
 		}
 		tpl, err := textwire.NewTemplate(cfg)
 		if err != nil {
